@@ -291,81 +291,7 @@ def _base_anchor(x):
     return f"({x}.markClass is not None and {x}.number is None and not {x}.isContextual)"
 
 
-_B_SOUND = (
-    "all(0 <= src[k] and src[k] < {bound} and result[k].name == {K}[src[k]] and {elig} and len(result[k].marks) > 0"
-    " and len(sels[k]) == len(result[k].marks)"
-    " and all(0 <= sels[k][m] and sels[k][m] < len({AL}[{K}[src[k]]]) and result[k].marks[m] == {AL}[{K}[src[k]]][sels[k][m]]"
-    " and {anch} and (m == 0 or sels[k][m - 1] < sels[k][m]) for m in range(len(sels[k])))"
-    " for k in range(len(result)))"
-)
-
-
-def _b_sound(bound):
-    return _B_SOUND.format(bound=bound, K=KEYS, AL=AL, elig=_base_glyph(f"{KEYS}[src[k]]"), anch=_base_anchor("result[k].marks[m]"))
-
-
-_B_ORDER = "len(src) == len(result) and len(sels) == len(result) and all(all(implies(k1 < k2, src[k1] < src[k2]) for k2 in range(len(src))) for k1 in range(len(src)))"
-# every eligible (glyph, anchor) position is in the output: pos[a] = index of glyph a's statement, mpos[a][b] = index of anchor b in it
-_B_COMPLETE = (
-    "all(implies({elig}, all(implies({anch}, a in pos and 0 <= pos[a] and pos[a] < len(result) and src[pos[a]] == a"
-    " and a in mpos and b in mpos[a] and 0 <= mpos[a][b] and mpos[a][b] < len(sels[pos[a]]) and sels[pos[a]][mpos[a][b]] == b)"
-    " for b in range(len({AL}[{K}[a]])))) for a in range({bound}))"
-)
-
-
-def _b_complete(bound):
-    return _B_COMPLETE.format(bound=bound, K=KEYS, AL=AL, elig=_base_glyph(f"{KEYS}[a]"), anch=_base_anchor(_at("a", "b")))
-
-
-contract(
-    W + "MarkFeatureWriter._makeMarkToBaseAttachments",
-    props=["C06"],
-    params={"self": Ref("C06_Writer")},
-    returns=List(MARK2BASE),
-    # anchors that carry a mark class are never mark anchors: _setBaseAnchorMarkClasses assigns classes to non-mark anchors only
-    # and NamedAnchor.__init__ starts with markClass None (both proved above); the code asserts it
-    requires=[f"all(all(implies({_at('a', 'b')}.markClass is not None, not {_at('a', 'b')}.isMark) for b in range(len({AL}[{KEYS}[a]]))) for a in range(len({KEYS})))"],
-    ensures={
-        # every statement is for an eligible glyph and lists, in source order, anchors of that glyph that have a mark class,
-        # no component number and no context: nothing else attaches
-        "only-eligible": f"all(result[k].name in {AL} and {_base_glyph('result[k].name')} and len(result[k].marks) > 0"
-        f" and all({_base_anchor('result[k].marks[m]')} and any(result[k].marks[m] == {AL}[result[k].name][b] for b in range(len({AL}[result[k].name])))"
-        " for m in range(len(result[k].marks))) for k in range(len(result)))",
-        "one-statement-per-glyph": "all(all(implies(k1 != k2, result[k1].name != result[k2].name) for k2 in range(len(result))) for k1 in range(len(result)))",
-        # and every such anchor of every eligible glyph is in the glyph's statement
-        "all-eligible": f"all(implies({_base_glyph(KEYS + '[a]')}, all(implies({_base_anchor(_at('a', 'b'))},"
-        f" any(result[k].name == {KEYS}[a] and any(result[k].marks[m] == {_at('a', 'b')} for m in range(len(result[k].marks))) for k in range(len(result))))"
-        f" for b in range(len({AL}[{KEYS}[a]])))) for a in range(len({KEYS})))",
-    },
-    canaries={"never-empty": "len(result) > 0"},
-    locals={"result": List(MARK2BASE), "baseMarks": List(NA), "rb0": List(MARK2BASE)},
-    hints={"result.append(MarkToBasePos(glyphName, baseMarks))": [
-        "len(result) == len(rb0) + 1 and result[len(rb0)].name == glyphName and result[len(rb0)].marks == baseMarks",
-        "all(result[k] == rb0[k] for k in range(len(rb0)))",
-    ]},
-    ghost_vars={
-        "rb0": (List(MARK2BASE), "[]"),
-        "src": (List(INT), "[]"), "sels": (List(List(INT)), "[]"), "sel": (List(INT), "[]"),
-        "pos": (Dict(INT, INT), "{}"), "mpos": (Dict(INT, Dict(INT, INT)), "{}"), "mp": (Dict(INT, INT), "{}"),
-    },
-    ghost={
-        "baseMarks = []": ["sel = []", "mp = {}", "rb0 = result + []"],
-        "baseMarks.append(anchor)": ["mp = {**mp, j: len(sel)}", "sel = sel + [j]"],
-        "result.append(MarkToBasePos(glyphName, baseMarks))": ["pos = {**pos, i: len(src)}", "mpos = {**mpos, i: mp}", "src = src + [i]", "sels = sels + [sel]"],
-    },
-    loops={
-        "for (glyphName, anchors) in self.context.anchorLists.items()": Loop(index="i", invariants={
-            "sound": _b_sound("i"),
-            "order": _B_ORDER,
-            "complete": _b_complete("i"),
-        }),
-        "for anchor in anchors": Loop(index="j", invariants={
-            "sel": "len(sel) == len(baseMarks) and all(0 <= sel[m] and sel[m] < j and baseMarks[m] == anchors[sel[m]] and "
-            + _base_anchor("baseMarks[m]") + " and (m == 0 or sel[m - 1] < sel[m]) for m in range(len(sel)))",
-            "mp": "all(implies(" + _base_anchor("anchors[b]") + ", b in mp and 0 <= mp[b] and mp[b] < len(sel) and sel[mp[b]] == b) for b in range(j))",
-        }),
-    },
-)
+# (the contracts of _makeMarkToBaseAttachments are in contracts/c06base.py: one variant per clause group)
 
 
 # ---------------------------------------------------------------------------------------------------------
@@ -390,118 +316,9 @@ def _bare(x):
     return f"({_counted(x)} and {x}.key == '')"
 
 
-def _l_inner(j):
-    return {
-        "keys": "all(n in kw and n in kpos and n >= 1 for n in componentAnchors) and all(n in componentAnchors for n in kpos)",
-        "key-position": "all(0 <= kpos[n] and kpos[n] < len(list(componentAnchors)) and list(componentAnchors)[kpos[n]] == n for n in componentAnchors)",
-        "elem-prop": "all(all(" + _named("componentAnchors[n][m]") + " and componentAnchors[n][m].number == n for m in range(len(componentAnchors[n]))) for n in componentAnchors)",
-        "elem-src": "all(all(any(componentAnchors[n][m] == anchors[b] for b in range(" + j + ")) for m in range(len(componentAnchors[n]))) for n in componentAnchors)",
-        "counted-in": "all(implies(" + _counted("anchors[b]") + f", (anchors[b].number + 0) in componentAnchors) for b in range({j}))",
-        "key-witness": f"all(0 <= kw[n] and kw[n] < {j} and " + _counted("anchors[kw[n]]") + " and anchors[kw[n]].number == n for n in componentAnchors)",
-    }
-
-
-_L_INNER = _l_inner("j")
-# explicit frame of the two dict updates (snapshot ca0 taken at `number = anchor.number`), proved inside each branch
-_KP1 = _l_inner("j + 1")["key-position"]
-_L_FRAME = ["all(implies(n != number, n in componentAnchors and componentAnchors[n] == ca0[n]) for n in ca0)",
-            "all(n in ca0 or n == number for n in componentAnchors)"]
-# (the case split on "was the key already present" is spelled out: the solvers do not find it under the dict update's ite)
-_L_KP = ["implies((number + 0) in ca0, " + _KP1 + ")",
-         "implies((number + 0) not in ca0, len(list(componentAnchors)) == len(list(ca0)) + 1 and list(componentAnchors)[len(list(ca0))] == number)",
-         "implies((number + 0) not in ca0, all(list(componentAnchors)[kpos[n]] == n for n in ca0))",
-         "implies((number + 0) not in ca0, " + _KP1 + ")", _KP1]
-_L_HINTS_BARE = _L_FRAME + ["(number + 0) in componentAnchors and len(componentAnchors[number]) == 0"] + _L_KP
-_L_HINTS_APP = _L_FRAME + ["(number + 0) in componentAnchors and componentAnchors[number] == (ca0[number] if (number + 0) in ca0 else []) + [anchor]"] + _L_KP + [
-    "implies((number + 0) not in ca0, len(componentAnchors[number]) == 1 and componentAnchors[number][0] == anchor)",
-    "implies((number + 0) in ca0, len(componentAnchors[number]) == len(ca0[number]) + 1 and componentAnchors[number][len(ca0[number])] == anchor"
-    " and all(componentAnchors[number][m] == ca0[number][m] for m in range(len(ca0[number]))))",
-    "all(" + _named("componentAnchors[number][m]") + " and componentAnchors[number][m].number == number for m in range(len(componentAnchors[number])))",
-    "all(any(componentAnchors[number][m] == anchors[b] for b in range(j + 1)) for m in range(len(componentAnchors[number])))",
-]
-
-def _l_sound(bound):
-    K = KEYS
-    return {
-        "sound-glyph": f"all(0 <= src[k] and src[k] < {bound} and result[k].name == {K}[src[k]] and {_liga_glyph(K + '[src[k]]')} and len(result[k].marks) >= 1 for k in range(len(result)))",
-        "sound-number": "all(all(all(" + _named("result[k].marks[n][m]") + " and result[k].marks[n][m].number == n + 1"
-        " for m in range(len(result[k].marks[n]))) for n in range(len(result[k].marks))) for k in range(len(result)))",
-        "sound-source": f"all(all(all(any(result[k].marks[n][m] == {AL}[{K}[src[k]]][b] for b in range(len({AL}[{K}[src[k]]])))"
-        " for m in range(len(result[k].marks[n]))) for n in range(len(result[k].marks))) for k in range(len(result)))",
-    }
-
-
-_L_COUNT = (
-    "all(all(implies({counted}, {AL}[{K}[src[k]]][b].number <= len(result[k].marks)) for b in range(len({AL}[{K}[src[k]]])))"
-    " and 0 <= cw[k] and cw[k] < len({AL}[{K}[src[k]]]) and {cwc} and {AL}[{K}[src[k]]][cw[k]].number == len(result[k].marks)"
-    " for k in range(len(result)))"
-).format(K=KEYS, AL=AL, counted=_counted(f"{AL}[{KEYS}[src[k]]][b]"), cwc=_counted(f"{AL}[{KEYS}[src[k]]][cw[k]]"))
-_L_ORDER = "len(src) == len(result) and len(cw) == len(result) and all(all(implies(k1 < k2, src[k1] < src[k2]) for k2 in range(len(src))) for k1 in range(len(src)))"
-
 _ALL_ANCHORS = "all(all({{body}} for b in range(len({AL}[{K}[a]]))) for a in range(len({K})))".format(AL=AL, K=KEYS)
 
-contract(
-    W + "MarkFeatureWriter._makeMarkToLigaAttachments",
-    props=["C06"],
-    params={"self": Ref("C06_Writer")},
-    returns=List(MARK2LIGA),
-    requires=[
-        # class invariants of NamedAnchor (NamedAnchor.__init__ 'component-index-from-1'; a mark anchor has a non-empty key: parseAnchorName,
-        # bounded clause 'mark-has-key'); anchors with a mark class are not mark anchors (_setBaseAnchorMarkClasses only touches non-mark anchors)
-        _ALL_ANCHORS.format(body=f"implies({_at('a', 'b')}.number is not None, {_at('a', 'b')}.number >= 1)"),
-        _ALL_ANCHORS.format(body=f"implies({_at('a', 'b')}.isMark, {_at('a', 'b')}.key != '' and {_at('a', 'b')}.markClass is None)"),
-    ],
-    ensures={
-        "one-statement-per-eligible-glyph": f"all(result[k].name in {AL} and {_liga_glyph('result[k].name')} for k in range(len(result)))"
-        " and all(all(implies(k1 != k2, result[k1].name != result[k2].name) for k2 in range(len(result))) for k1 in range(len(result)))",
-        # marks[N-1] holds only anchors of that glyph numbered N (that have a mark class and are not contextual)
-        "component-N-holds-anchors-numbered-N": f"all(all(all(result[k].marks[n][m].number == n + 1 and {_named('result[k].marks[n][m]')}"
-        f" and any(result[k].marks[n][m] == {AL}[result[k].name][b] for b in range(len({AL}[result[k].name])))"
-        " for m in range(len(result[k].marks[n]))) for n in range(len(result[k].marks))) for k in range(len(result)))",
-        # the component count is the largest component number in the glyph (missing numbers are kept as empty components)
-        "component-count-preserved": f"all(len(result[k].marks) >= 1 and all(implies({_counted(AL + '[result[k].name][b]')}, {AL}[result[k].name][b].number <= len(result[k].marks))"
-        f" for b in range(len({AL}[result[k].name]))) and any({_counted(AL + '[result[k].name][b]')} and {AL}[result[k].name][b].number == len(result[k].marks)"
-        f" for b in range(len({AL}[result[k].name]))) for k in range(len(result)))",
-    },
-    canaries={"never-empty": "len(result) > 0"},
-    locals={"result": List(MARK2LIGA), "componentAnchors": Dict(INT, List(NA)), "ligatureMarks": List(List(NA)),
-            "kw": Dict(INT, INT), "kpos": Dict(INT, INT), "ca0": Dict(INT, List(NA)), "r0": List(MARK2LIGA)},
-    ghost_vars={
-        "r0": (List(MARK2LIGA), "[]"),
-        "src": (List(INT), "[]"), "cw": (List(INT), "[]"), "kw": (Dict(INT, INT), "{}"), "kpos": (Dict(INT, INT), "{}"), "ca0": (Dict(INT, List(NA)), "{}"),
-    },
-    ghost={
-        "componentAnchors = {}": ["kw = {}", "kpos = {}"],
-        "number = anchor.number": ["ca0 = {**componentAnchors}"],
-        "ligatureMarks = []": ["r0 = result + []"],
-        "componentAnchors[number] = []": ["kw = {**kw, number: j}", "kpos = {**kpos, number: (kpos[number] if (number + 0) in kpos else len(list(componentAnchors)) - 1)}"],
-        "componentAnchors.setdefault(number, []).append(anchor)": ["kw = {**kw, number: j}", "kpos = {**kpos, number: (kpos[number] if (number + 0) in kpos else len(list(componentAnchors)) - 1)}"],
-        "result.append(MarkToLigaPos(glyphName, ligatureMarks))": ["src = src + [i]", "cw = cw + [kw[len(ligatureMarks)]]"],
-    },
-    merge_branches=False,
-    hints={
-        "for number in range(1, max(componentAnchors.keys()) + 1):": [
-            "len(ligatureMarks) >= 1",
-            "all(all(" + _named("ligatureMarks[n][m]") + " and ligatureMarks[n][m].number == n + 1 for m in range(len(ligatureMarks[n]))) for n in range(len(ligatureMarks)))",
-            "all(all(any(ligatureMarks[n][m] == anchors[b] for b in range(len(anchors))) for m in range(len(ligatureMarks[n]))) for n in range(len(ligatureMarks)))",
-        ],
-        "result.append(MarkToLigaPos(glyphName, ligatureMarks))": [
-            "len(result) == len(r0) + 1 and result[len(r0)].name == glyphName and result[len(r0)].marks == ligatureMarks",
-            "all(result[k] == r0[k] for k in range(len(r0)))",
-        ],
-        "componentAnchors[number] = []": _L_HINTS_BARE, "componentAnchors.setdefault(number, []).append(anchor)": _L_HINTS_APP,
-    },
-    loops={
-        "for (glyphName, anchors) in self.context.anchorLists.items()": Loop(index="i", invariants={
-            **_l_sound("i"), "count": _L_COUNT, "order": _L_ORDER,
-        }),
-        "for anchor in anchors": Loop(index="j", invariants=_L_INNER),
-        "for number in range(1, max(componentAnchors.keys()) + 1)": Loop(index="t", invariants={
-            "len": "len(ligatureMarks) == t",
-            "filled": "all((ligatureMarks[u] == componentAnchors[u + 1]) if (u + 1) in componentAnchors else (len(ligatureMarks[u]) == 0) for u in range(t))",
-        }),
-    },
-)
+# (the contracts of _makeMarkToLigaAttachments are in contracts/c06liga.py: one variant per clause group)
 
 
 # ---------------------------------------------------------------------------------------------------------
@@ -530,71 +347,7 @@ def _some_mark_named(nm):
     return f"any(any({_at('a2', 'b2')}.isMark and {_at('a2', 'b2')}.name == {nm} for b2 in range(len({AL}[{KEYS}[a2]]))) for a2 in range(len({KEYS})))"
 
 
-_UPD = "markAnchorNames.update((a.name for a in anchors if a.isMark))"
-_KEY_OF_NAME = _ALL_ANCHORS.format(body=f"{_at('a', 'b')}.key == an_key({_at('a', 'b')}.name)")
-# Two contracts on the same function, because the two directions of "markAnchorNames == names of the mark anchors" need different
-# facts about `S.update(<filtered generator>)`: the forall-exists membership axiom (comp_membership) that the "only mark anchors" direction
-# needs makes the "every mark anchor" direction (pure forall) time out in every solver configuration.  Each variant carries only the
-# hypotheses of its own direction.  m0 / mprev: ghost snapshots of markAnchorNames (m0 == the set at every head of loop 1, mprev == the
-# set before the update of this iteration); the effect of the one `update` statement is stated as small hints, proved there.
-contract(
-    W + "MarkFeatureWriter._getAnchorPairs",
-    props=["C06"],
-    params={"self": Ref("C06_Writer")},
-    returns=Dict(STR, STR),
-    # class invariant of NamedAnchor: the key is a function of the name (NamedAnchor.__init__ 'classified')
-    requires=[_KEY_OF_NAME],
-    ensures={
-        # every recorded pair maps the name of a base anchor to '_' + that anchor's key
-        "base-anchor-of-that-key": f"all(any(any(not {_at('a', 'b')}.isMark and {_at('a', 'b')}.name == k and result[k] == '_' + {_at('a', 'b')}.key"
-        f" for b in range(len({AL}[{KEYS}[a]]))) for a in range(len({KEYS}))) for k in result)",
-        # ... and every base anchor whose '_' + key is the name of some mark anchor is recorded
-        "every-matching-anchor-pairs": f"all(all(implies(not {_at('a', 'b')}.isMark and {_some_mark_named(chr(39) + '_' + chr(39) + ' + ' + _at('a', 'b') + '.key')},"
-        f" {_at('a', 'b')}.name in result and result[{_at('a', 'b')}.name] == '_' + {_at('a', 'b')}.key) for b in range(len({AL}[{KEYS}[a]]))) for a in range(len({KEYS})))",
-    },
-    canaries={"empty": "len(result) == 0"},
-    locals={"markAnchorNames": Set(STR), "anchorPairs": Dict(STR, STR), "m0": Set(STR), "mprev": Set(STR)},
-    ghost_vars={"wa": (Dict(STR, INT), "{}"), "wb": (Dict(STR, INT), "{}"), "m0": (Set(STR), "set()"), "mprev": (Set(STR), "set()")},
-    ghost={"anchorPairs[anchor.name] = markAnchorName": ["wa = {**wa, anchor.name: i2}", "wb = {**wb, anchor.name: j}"],
-           _UPD: ["mprev = m0", "m0 = markAnchorNames"]},
-    hints={_UPD: [
-        "all(n in markAnchorNames for n in mprev)",
-        "all(implies(anchors[b].isMark, anchors[b].name in markAnchorNames) for b in range(len(anchors)))",
-    ]},
-    loops={
-        "for anchors in self.context.anchorLists.values()#1": Loop(index="i1", invariants={"snapshot": "m0 == markAnchorNames", "m-complete": _m_complete("i1")}),
-        "for anchors in self.context.anchorLists.values()#2": Loop(index="i2", invariants={
-            "wit": _p_wit("wa[k] < i2"),
-            "complete": _p_complete("i2"),
-        }),
-        "for anchor in anchors": Loop(index="j", invariants={
-            "wit": _p_wit("(wa[k] < i2 or (wa[k] == i2 and wb[k] < j))"),
-            "complete": _p_complete("i2"),
-            "complete-cur": "all(implies(not anchors[b].isMark and ('_' + anchors[b].key) in markAnchorNames, anchors[b].name in anchorPairs and anchorPairs[anchors[b].name] == '_' + anchors[b].key) for b in range(j))",
-        }),
-    },
-)
-
-contract(
-    W + "MarkFeatureWriter._getAnchorPairs",
-    name="counterpart",
-    props=["C06"],
-    params={"self": Ref("C06_Writer")},
-    returns=Dict(STR, STR),
-    comp_membership=True,  # membership characterisation of `S.update(<filtered generator>)` (opt-in engine axiom)
-    ensures={
-        # a pair is recorded only if SOME glyph carries a mark anchor of exactly that name (equality, not prefix)
-        "only-with-counterpart": f"all({_some_mark_named('result[k]')} for k in result)",
-    },
-    canaries={"empty": "len(result) == 0"},
-    locals={"markAnchorNames": Set(STR), "anchorPairs": Dict(STR, STR)},
-    # (no hint at the update statement here: an extra forall-exists fact about the new set slows this step down)
-    loops={
-        "for anchors in self.context.anchorLists.values()#1": Loop(index="i1", invariants={"m-sound": _m_sound("i1")}),
-        "for anchors in self.context.anchorLists.values()#2": Loop(index="i2", invariants={"in-marks": "all(anchorPairs[k] in markAnchorNames for k in anchorPairs)"}),
-        "for anchor in anchors": Loop(index="j", invariants={"in-marks": "all(anchorPairs[k] in markAnchorNames for k in anchorPairs)"}),
-    },
-)
+# (the contracts of _getAnchorPairs are in contracts/c06pairs.py: one variant per clause group)
 
 
 # ---------------------------------------------------------------------------------------------------------
@@ -821,7 +574,7 @@ CONTRACTS[W + "AbstractMarkPos.__init__"].runtime = Runtime(
     lambda rng, n: [{"name": "a", "n": k} for k in range(3)][:n], _pos_build, call=lambda fn, a: fn(a["self"], a["name"], a["marks"])
 )
 
-for _fn, _stage in (("_getAnchorPairs", "context"), ("_getAnchorPairs#counterpart", "context"), ("_setBaseAnchorMarkClasses", "classes"), ("_makeMarkToBaseAttachments", "assigned"), ("_makeMarkToLigaAttachments", "assigned")):
+for _fn, _stage in (("_setBaseAnchorMarkClasses", "classes"),):
     CONTRACTS[W + "MarkFeatureWriter." + _fn].runtime = Runtime(
         c06rt.stage_cases, (lambda st: (lambda d: {"self": c06rt.writer_at(d, st)}))(_stage), call=lambda fn, a: fn(a["self"])
     )
